@@ -386,6 +386,20 @@ def c14(ctx, e):
                 if kind != "error" or not rep.startswith(want):
                     ctx.violation("outcome-unfaithful", f"{n['k']} {path}: backend {st} but delivered {kind} {rep[:60]}", scen_of(e))
                     return
+                if n["k"] == "invoke":
+                    # ... and it is the RECORDED error: type and message of the backend's error object (a message that was not
+                    # recorded is not invented)
+                    err = rec.get("_error") if isinstance(rec.get("_error"), dict) else {}
+                    parts = rep.split("|")
+                    got_msg, got_type = "|".join(parts[1:-1]), parts[-1]
+                    wm, wt = err.get("ErrorMessage"), err.get("ErrorType")
+                    # (no error object at all: the SDK's "unknown error" substitute is all there is to raise)
+                    bad = bool(err) and ((isinstance(wt, str) and got_type != wt) or (isinstance(wm, str) and got_msg != wm) or
+                                         (wm is None and got_msg not in ("None", "")))
+                    if bad:
+                        ctx.violation("outcome-unfaithful", f"invoke {path}: the backend recorded ErrorType={wt!r} ErrorMessage={wm!r}, the call "
+                                                            f"raised type={got_type!r} message={got_msg[:60]!r}", scen_of(e))
+                        return
         if rec["Status"] in TERMINAL and e.final in ("SUCCEEDED", "FAILED") and not dl:
             # the execution finished although the awaited call never delivered its outcome
             reached = any(ev.get("path") == path for ev in e.trace if ev.get("ev") in ("CbCreated",)) or n["k"] == "invoke"
@@ -677,13 +691,18 @@ def c16(ctx, e):
     # a map/parallel item whose own result is oversized must still succeed and be recovered
     for path, n in nodes.items():
         if n.get("k") in ("map", "par") and (n.get("large_item") or n.get("large_items")):
+            # the known deviation is specific to calls WITHOUT a config (the handler's default summary generator reaches the item
+            # contexts); with a config of the caller's own (no summary generator in it) an oversized item must succeed
+            no_config = not (n.get("explicit_cfg") or n.get("cfg") or n.get("maxc") or n.get("bad_serdes"))
+            sig = "map-item-summary-generator" if no_config else "oversized-item-failed"
+            intended = set(int(x) for x in (n.get("braise") or []))
             for (inv, kd, r) in e.rec.delivered.get(path, [])[:1]:
-                if "FAILED" in r and "AttributeError" in r or (kd == "error"):
-                    ctx.violation("map-item-summary-generator", f"{path}: an item with an oversized result failed: {r[:160]}", scen_of(e))
+                if "FAILED" in r and "AttributeError" in r or (kd == "error" and no_config):
+                    ctx.violation(sig, f"{path}: an item with an oversized result failed: {r[:160]}", scen_of(e))
                     return
-                if ",FAILED," in r:
-                    ctx.violation("map-item-summary-generator", f"{path}: an item with an oversized result was reported FAILED: "
-                                                                f"{r[:60]} ... {r[-160:]}", scen_of(e))
+                if ",FAILED," in r and (no_config or not intended):
+                    ctx.violation(sig, f"{path}: an item with an oversized result was reported FAILED: "
+                                       f"{r[:60]} ... {r[-160:]}", scen_of(e))
                     return
 
 
